@@ -5,7 +5,7 @@ from report import Rule
 from mirlib import callee_name, op_const, op_place, backward_slice
 import mustlib as M
 from astlib import find_all, find_first, show, show_pat, quotes_in, tok_text, method_chain, callee_path
-from rules.common import ftrav, flat, flatp, has, same
+from rules.common import ftrav, flat, flatp, has, same, xquotes
 
 EXPLANATION = (
     "Static structural analysis (syntax facts, MIR provenance facts, generated-code templates); nothing executed in the "
@@ -243,9 +243,9 @@ def r4_builder(ctx):
         r.missing("Interpolation::create_types")
     else:
         t = flatp(show(fn.body))
-        qs = [flat(tok_text(q["tokens"])) for q in quotes_in(fn.body)]
+        qs = [flat(tok_text(q["tokens"])) for q in xquotes(fn.body)]
         main = [q for q in qs if "TypedBuilder" in q]
-        ok = bool(main) and "pubstruct#ident<#(#[allow(non_camel_case_types)]#generics,)*>{#locale_field:#enum_ident,#into_views_marker,#(#fields,)*}" in main[0]
+        ok = bool(main) and re.search(r"pubstruct#ident<#\(#\[allow\(non_camel_case_types\)\]#generics,\)\*>\{#locale_field:#enum_ident,(#into_views_marker|#into_view_field:core::marker::PhantomData<\(#\(#into_views,\)\*\)>),#\(#fields,\)\*\}", main[0]) is not None
         ok = ok and has(t, "letfields=fields.iter.mapField::as_struct_field;")
         bad_attr = [q for q in qs if re.search(r"#\[builder\((?!crate_module_path)", q)]
         if ok and not bad_attr:
@@ -254,14 +254,14 @@ def r4_builder(ctx):
             r.viol("R4:create_types", "the TypedBuilder struct no longer has exactly one plain field per argument (builder attrs: %s)" % bad_attr, file=MI)
     fn = ast.fn(MI, "as_struct_field", impl_self="Field")
     if fn is not None:
-        qs = [flat(tok_text(q["tokens"])) for q in quotes_in(fn.body)]
+        qs = [flat(tok_text(q["tokens"])) for q in xquotes(fn.body)]
         if qs != ["#key:#generic"]:
             r.viol("R4:Field::as_struct_field", "field template is %s (a `#[builder(default)]` or Option type would make the argument optional)" % qs, file=MI)
         else:
             r.inst("Field::as_struct_field", "#key: #generic")
     fn = ast.fn(MI, "builder_string_build_fns", impl_self="Interpolation")
     if fn is not None:
-        qs = [flat(tok_text(q["tokens"])) for q in quotes_in(fn.body)]
+        qs = [flat(tok_text(q["tokens"])) for q in xquotes(fn.body)]
         t = flatp(show(fn.body))
         ok = any("impl<#(#left_generics,)*>#typed_builder_name<#(#right_generics,)*((#enum_ident,),(core::marker::PhantomData<(#(#into_views,)*)>,),#((#marker,),)*)>{#fns}" in q for q in qs)
         ok = ok and has(t, "letmarker=fields.iter.mapField::as_string_builder_marker;")
@@ -271,14 +271,14 @@ def r4_builder(ctx):
             r.viol("R4:builder_string_build_fns", "string build functions are no longer restricted to the fully-set builder", file=MI)
     fn = ast.fn("leptos_i18n_macro/src/t_macro/interpolate.rs", "to_token_stream", impl_self="InterpolatedValue")
     if fn is not None:
-        qs = [flat(tok_text(q["tokens"])) for q in quotes_in(fn.body)]
+        qs = [flat(tok_text(q["tokens"])) for q in xquotes(fn.body)]
         if "#var_ident(#ident)" in qs and "#comp_ident(#ident)" in qs:
             r.inst("t! setters", ".var_<name>(value) / .comp_<name>(value)")
         else:
             r.viol("R4:t!#setters", "t! no longer calls the setter named after the argument", file=fn.file, line=fn.line)
     fn = ast.fn("leptos_i18n_macro/src/t_macro/mod.rs", "t_macro_inner")
     if fn is not None:
-        qs = [flat(tok_text(q["tokens"])) for q in quotes_in(fn.body)]
+        qs = [flat(tok_text(q["tokens"])) for q in xquotes(fn.body)]
         if any("let_builder=#get_key.#builder_fn();#(let_builder=_builder.#interpolations;)*#[deny(deprecated)]_builder.#build_fn()" in q for q in qs):
             r.inst("t! template", "every given argument is applied, then #[deny(deprecated)] build (typed-builder reports a missing field through a deprecated fn)")
         else:
